@@ -331,10 +331,15 @@ func (en *DefaultEngine) runFirst(ctx context.Context) (bool, error) {
 	rs := resource.NewMenuResource()
 	rs.AddLocalFunc("_first", en.first)
 	_, idx := en.st.Where()
+	lvl := en.st.Depth()
 	en.st.Down("_first")
 	defer func() { en.st.SizeIdx = idx }()
-	defer en.ca.Pop()
-	defer en.st.Up()
+	defer func() {
+		for en.st.Depth() > lvl {
+			en.st.Up()
+			en.ca.Pop()
+		}
+	}()
 	defer en.st.ResetFlag(state.FLAG_TERMINATE)
 	defer en.st.ResetFlag(state.FLAG_DIRTY)
 	pvm := vm.NewVm(en.st, rs, en.ca, nil)
